@@ -525,6 +525,9 @@ def topological_ordering(A):
         If the given graph is not a DAG.
 
     """
+    # Only the non-zero pattern matters: weights can be negative or
+    # cancel each other, so never sum them
+    A = (A != 0).astype(int)
     # Check that there are no undirected edges
     if only_undirected(A).sum() > 0:
         raise ValueError("The given graph is not a DAG")
